@@ -321,7 +321,7 @@ func runC01(c *mon.Ctx) {
 	})
 	c.MarkExhaustive("boundary matrix: 13 boundary deltas x 16 message kinds x 3 formats x running status on/off x 7 divisions")
 
-	c.Each("histories", c.N(30_000, 300_000), func(i int64, r *mon.Rand) {
+	c.Each("histories", c.N(30_000, 3_000_000), func(i int64, r *mon.Rand) {
 		a := buildHistory(r, 1<<32-1, i%32 == 0)
 		c01Check(c, a, fmt.Sprintf("history %d", i))
 		if i < 2 {
